@@ -15,6 +15,9 @@ package c11
 
 import (
 	"bytes"
+	"context"
+	"io"
+	"runtime"
 	"encoding/hex"
 	"fmt"
 	"sort"
@@ -860,6 +863,223 @@ func (g *gen) tamperMatrix(masks []int, stride int) {
 	g.fetchAll("live")
 }
 
+// transient faults of the wrapped stores: a ReceiveBlob of `blobs` or `meta` fails once (the next one, or
+// the one after) during a receive or during a compaction; the same upload is retried until it is
+// acknowledged; the index is wiped and rebuilt (shadow storage) at every later point: every ACKNOWLEDGED
+// blob must be served bit-identically after the rebuild.  A failed receive may or may not have stored
+// anything; it must not make a later acknowledged receive unrecoverable.
+func (g *gen) faults(rounds int) {
+	for c := 0; c < rounds; c++ {
+		g.begin("faults")
+		var shape []string
+		for i := 0; i < 1+g.r.R.Intn(3); i++ {
+			g.recv("recv", g.freshData(g.blobSize()%300))
+		}
+		steps := 4 + g.r.R.Intn(6)
+		for i := 0; i < steps; i++ {
+			switch k := g.r.R.Intn(10); {
+			case k < 6:
+				store := []string{"E", "M"}[g.r.R.Intn(2)]
+				at := 1 + g.r.R.Intn(2)
+				g.op(fmt.Sprintf("fault %s %d", store, at))
+				data := g.freshData(10 + g.r.R.Intn(40))
+				out := g.recv("recv", data)
+				shape = append(shape, store+fmt.Sprint(at))
+				tries := 0
+				for out == "err" && tries < 4 {
+					tries++
+					g.r.Hit("fault:receive-failed:" + store)
+					g.op("dump")
+					g.pointCheck(true)
+					if g.r.R.Intn(3) == 0 {
+						g.restart([]string{"keep", "wipe"}[g.r.R.Intn(2)], true)
+						shape = append(shape, "R")
+					}
+					out = g.recv("recv", data) // the client retries the same upload
+					if strings.HasPrefix(out, "ok") {
+						g.r.Hit("fault:retry-acknowledged")
+					}
+				}
+			case k < 8:
+				g.recv("recv", g.freshData(10+g.r.R.Intn(40)))
+				shape = append(shape, "r")
+			case k == 8:
+				g.restart([]string{"keep", "wipe"}[g.r.R.Intn(2)], true)
+				shape = append(shape, "R")
+			default:
+				j := g.r.R.Intn(len(g.e.labels))
+				g.op(fmt.Sprintf("fetch @%d", j+1))
+				g.checkFetch(g.e.w, "live", g.e.labels[j], g.e.acked[g.e.labels[j]])
+				shape = append(shape, "f")
+			}
+			g.op("dump")
+			g.pointCheck(true)
+		}
+		g.op("fault E 0")
+		g.op("fault M 0")
+		g.op("calls")
+		g.restart("wipe", true)
+		g.op("dump")
+		g.pointCheck(true)
+		g.fetchAll("live")
+		g.crashPrefixes(1, true)
+		g.r.Distinct("faults:" + strings.Join(shape, ""))
+	}
+
+	// faults around compaction
+	g.begin("faults-compaction")
+	many := func(n int) {
+		for i := 0; i < n; i++ {
+			g.recv("recv", g.freshData(12+g.r.R.Intn(20)))
+		}
+		g.op("calls")
+		g.op("sum")
+		g.pointCheck(true)
+	}
+	retry := func(data []byte, why string) {
+		out := g.recv("recv", data)
+		for tries := 0; out == "err" && tries < 4; tries++ {
+			g.r.Hit("fault:" + why + ":receive-failed")
+			g.op("sum")
+			g.pointCheck(true)
+			out = g.recv("recv", data)
+		}
+		calls := g.op("calls")
+		g.uploadFirst(calls, 0)
+		if strings.Contains(calls, "M-") {
+			g.r.Hit("fault:" + why + ":compaction-ran")
+		} else {
+			g.r.Hit("fault:" + why + ":no-compaction")
+		}
+		g.op("sum")
+		g.pointCheck(true)
+	}
+	many(100)
+	// the 101st receive starts the packer; the packer's upload of the packed meta blob fails
+	g.op("fault M 2")
+	retry(g.freshData(16), "packed-upload-fails")
+	// more than SmallMetaCountLimit meta blobs at start-up: the scan's packer fails too, then succeeds
+	g.op("fault M 1")
+	g.restart("keep", true)
+	c1 := g.op("calls")
+	g.r.Hit("fault:startup-packed-upload-fails:" + map[bool]string{true: "compaction-ran", false: "no-compaction"}[strings.Contains(c1, "M-")])
+	g.op("sum")
+	g.pointCheck(true)
+	g.restart("wipe", true)
+	c2 := g.op("calls")
+	g.uploadFirst(c2, 0)
+	g.r.Hit("fault:startup-after-fault:" + map[bool]string{true: "compaction-ran", false: "no-compaction"}[strings.Contains(c2, "M-")])
+	g.op("sum")
+	g.op("dump")
+	g.pointCheck(true)
+	// the receive that would start the packer fails at its own meta write, then at its blobs write
+	many(100 - len(g.e.w.meta.m))
+	g.op("fault M 1")
+	retry(g.freshData(16), "trigger-meta-write-fails")
+	many(100 - len(g.e.w.meta.m))
+	g.op("fault E 1")
+	retry(g.freshData(16), "trigger-blobs-write-fails")
+	g.op("fault E 0")
+	g.op("fault M 0")
+	g.restart("wipe", true)
+	g.op("calls")
+	g.op("dump")
+	g.pointCheck(true)
+	g.fetchAll("live")
+	g.crashPrefixes(2, true)
+	g.r.Distinct("faults-compaction")
+}
+
+// cancelledUpload (harness-only, no protocol ops): upload A hangs in the wrapped blobs store, which has
+// not started reading the ciphertext; A's context is cancelled; upload B is received meanwhile and the
+// stuck write completes while B's body has just been read.  Then everything handed to the wrapped stores
+// is scanned as usual, and whatever was acknowledged must be served exactly.
+func (g *gen) cancelledUpload() {
+	g.begin("cancelled-upload")
+	defer runtime.GOMAXPROCS(runtime.GOMAXPROCS(1)) // one P: the per-P caches of sync.Pool are deterministic
+	e := g.e
+	if e.w == nil {
+		return
+	}
+	dataA := bytes.Repeat([]byte("public filler "), 200)
+	dataB := append([]byte("TOP-SECRET plaintext of blob B "), g.r.R.Bytes(40)...)
+	brA, brB := blob.RefFromBytes(dataA), blob.RefFromBytes(dataB)
+	e.plain[brA.String()], e.plain[brB.String()] = dataA, dataB
+	e.labels = append(e.labels, brA.String(), brB.String())
+	st := &stallCtl{make(chan struct{}), make(chan struct{}), make(chan struct{})}
+	e.w.blobs.mu.Lock()
+	e.w.blobs.stall = st
+	e.w.blobs.mu.Unlock()
+	ctxA, cancelA := context.WithCancel(ctxbg)
+	defer cancelA()
+	doneA := make(chan error, 1)
+	go func() {
+		_, err := e.w.sto.ReceiveBlob(ctxA, brA, bytes.NewReader(dataA))
+		doneA <- err
+	}()
+	select {
+	case <-st.entered:
+	case <-time.After(10 * time.Second):
+		g.r.Fail("impl-hang", "upload A never reached the wrapped blobs store", "", "", nil)
+		close(st.release)
+		return
+	}
+	cancelA()
+	aReturned, aErr := false, error(nil)
+	select {
+	case aErr = <-doneA:
+		aReturned = true
+		g.r.Hit("cancel:upload-returned-on-cancel")
+	case <-time.After(150 * time.Millisecond):
+		g.r.Hit("cancel:upload-waits-for-wrapped-store")
+	}
+	released := false
+	srcB := &eofHook{r: bytes.NewReader(dataB), atEOF: func() {
+		released = true
+		close(st.release)
+		<-st.done
+	}}
+	_, errB := e.w.sto.ReceiveBlob(ctxbg, brB, srcB)
+	if !released {
+		close(st.release)
+	}
+	if !aReturned {
+		aErr = <-doneA
+	}
+	e.w.quiesce()
+	g.r.ImplOnly("cancelled-upload")
+	if aErr == nil {
+		e.acked[brA.String()] = true
+	}
+	if errB == nil {
+		e.acked[brB.String()] = true
+	} else {
+		g.r.Fail("cancel:second-upload-fails", "upload B failed after upload A was cancelled", "ok", errB.Error(), nil)
+	}
+	g.leakScan()
+	for _, ref := range []string{brA.String(), brB.String()} {
+		g.checkFetch(e.w, "cancelled-upload", ref, e.acked[ref])
+	}
+	g.recoverCheck("cancelled-upload", e.w.blobs.snapshot(), e.w.meta.snapshot(), g.liveRows(), g.ackedRefs())
+	g.r.Distinct("cancelled-upload")
+}
+
+// eofHook yields data, then calls atEOF once before reporting io.EOF.
+type eofHook struct {
+	r     io.Reader
+	atEOF func()
+}
+
+func (s *eofHook) Read(p []byte) (int, error) {
+	n, err := s.r.Read(p)
+	if err == io.EOF && s.atEOF != nil {
+		f := s.atEOF
+		s.atEOF = nil
+		f()
+	}
+	return n, err
+}
+
 // malformed op lines: both sides must refuse them the same way
 func (g *gen) malformed() {
 	g.begin("malformed")
@@ -868,7 +1088,7 @@ func (g *gen) malformed() {
 		"recv", "recv zz", "recv E9", "recv @7", "recvas @1", "fetch", "fetch @0", "fetch @2", "fetch 0G", "stat @1 @1",
 		"enum - x", "enum @5 1", "garble E1 flop 3", "garble E1 flip x", "garble E4 flip 3", "garble Q1 flip 3",
 		"copy E1", "copy E1 M9", "swap M0 E1", "drop", "drop E7", "plant X E1", "plant M E5", "restore",
-		"restart maybe M1", "restart wipe M2", "restart wipe -", "restart wipe M1,M1", "dump 1", "frobnicate", "calls x", "sum x", "snap x",
+		"fault", "fault E", "fault X 1", "fault M -1", "fault M 1 1", "restart maybe M1", "restart wipe M2", "restart wipe -", "restart wipe M1,M1", "dump 1", "frobnicate", "calls x", "sum x", "snap x",
 	} {
 		g.op(l)
 	}
@@ -894,6 +1114,14 @@ func Run(r *hk.Run) {
 	g.lookalikes()
 	g.malformed()
 	lap("lookalikes+malformed")
+	if r.Thorough() {
+		g.faults(30)
+	} else {
+		g.faults(6)
+	}
+	lap("faults")
+	g.cancelledUpload()
+	lap("cancelled-upload")
 	if r.Thorough() {
 		g.tamperMatrix([]int{1, 0x80, 0}, 1)
 		lap("tamper-matrix")
